@@ -35,6 +35,10 @@ def unit_term(u):
     return '(mkunit %s %s)' % (qlit(f), qlit(o))
 
 
+def names_by(case, nm):
+    return [n for n in case['names'] if n['name'] == nm][0]
+
+
 class C07(Spec):
     pid = 'C07'
     imports = ['C05.Model', 'C04.Model', 'C07.Model']
@@ -46,7 +50,7 @@ class C07(Spec):
     impl_jobs = 8
     rule = ('generated models (IndepVarComp outputs promoted or not, inputs connected with src_indices on connect '
             'and on one promotes level, auto-IVC backed promoted inputs with src_shape / shared names / '
-            'set_input_defaults also next to shape_by_conn inputs, inputs with units on unitless sources, 33 unit strings) x addressable names (absolute output, promoted output, absolute input, '
+            'set_input_defaults also next to shape_by_conn inputs, inputs connected inside a sub-group and promoted 1-2 levels above it (every level\'s name addressed), inputs with units on unitless sources, 33 unit strings) x addressable names (absolute output, promoted output, absolute input, '
             'promoted auto-IVC name) x user indices (int, slice, array, tuple; negative entries) x unit strings x '
             'src_indices chains with and without aliasing (an input reading one source entry twice) x '
             'histories of 4-10 set/get with final_setup and run_model interleaved; every history is also executed '
@@ -176,8 +180,44 @@ class C07(Spec):
                     {'name': 'x0', 'src': a['name'], 'npro': 1, 'chain': [], 'shape': list(a['shape']),
                      'rshape': list(a['shape']), 'units': a['units'], 'sbc': True}]})
                 nb += 1
+        # 'dangling' promoted input: connected to its source INSIDE a sub-group (with src_indices and/or other
+        # units) and promoted one or two levels above that group; every level's name addresses the same variable
+        case['dang'] = None
+        if rng.random() < 0.45:
+            rank = rng.choice([1, 1, 2])
+            shape = [rng.randrange(2, 6) for _ in range(rank)]
+            fam = rng.choice(FAMILIES)
+            su = rng.choice(fam + [None])
+            chain = []
+            if rng.random() < 0.75:
+                lv = self.rnd_level(rng, shape, 'dconnect')
+                if lv is not None:
+                    chain.append(lv)
+            shp = chain[-1]['out_shape'] if chain else list(shape)
+            iu = rng.choice(fam + [None]) if su is not None else (rng.choice(fam) if rng.random() < 0.3 else None)
+            levels = rng.choice([1, 2])
+            case['sources'].append({'name': 'dy', 'kind': 'dang', 'shape': shape, 'units': su, 'fam': fam,
+                                    'vals': [rng.randrange(-9, 10) for _ in range(prod(shape))]})
+            case['dang'] = {'levels': levels, 'prefix': 'D.' if levels == 1 else 'H.D.',
+                            'inp': {'name': 'x', 'src': 'dy', 'chain': chain, 'shape': list(shp) if shp else [1],
+                                    'rshape': list(shp), 'units': iu}}
         # addressable names
+        if case['dang']:
+            d = case['dang']
+            i = d['inp']
+            s = case['sources'][-1]
+            case['names'].append({'name': d['prefix'] + 'ivc.y', 'src': 'dy', 'chain': [], 'units': None,
+                                  'shape': s['shape'], 'cls': 'abs-output'})
+            tops = [d['prefix'] + 'c.x', d['prefix'] + 'dx'] + (['H.dx'] if d['levels'] == 2 else []) + ['dx']
+            for k, nm in enumerate(tops):
+                cls = 'abs-input-connected' if k == 0 else ('prom-input-connecting-group' if k == 1
+                                                             else 'prom-input-above-connection')
+                case['names'].append({'name': nm, 'src': 'dy', 'chain': i['chain'], 'units': i['units'],
+                                      'shape': i['rshape'], 'cls': cls})
+            d['tops'] = tops
         for s in case['sources']:
+            if s['kind'] == 'dang':
+                continue
             if s['kind'] == 'ivc':
                 case['names'].append({'name': 'ivc.' + s['name'], 'src': s['name'], 'chain': [], 'units': None,
                                       'shape': s['shape'], 'cls': 'abs-output'})
@@ -199,21 +239,30 @@ class C07(Spec):
         nops = rng.randrange(4, 11)
         phase_ops = [{'op': 'final'}, {'op': 'run'}]
         classes = set()
+        plan = []
+        dset = None
         for _ in range(nops):
             r = rng.random()
-            if r < 0.2:
+            plan.append((r, None if r < 0.2 else rng.choice(case['names']), True))
+        if case['dang']:
+            # directed: set through a name above the connection, then read through every name of the variable
+            tops = case['dang']['tops']
+            plan.append((0.3, names_by(case, rng.choice(tops[2:])), False))
+            for nm in [case['dang']['prefix'] + 'ivc.y'] + tops:
+                plan.append((0.9, names_by(case, nm), False))
+        for r, n, free in plan:
+            if n is None:
                 hist.append(dict(rng.choice(phase_ops)))
                 continue
-            n = rng.choice(case['names'])
             s = srcs[n['src']]
             classes.add(n['cls'])
             level = None
-            if n['shape'] and rng.random() < 0.6:     # a 0-d value cannot be indexed
+            if free and n['shape'] and rng.random() < 0.6:     # a 0-d value cannot be indexed
                 level = self.rnd_level(rng, n['shape'], 'user', user=True)
             vshape = level['out_shape'] if level else n['shape']
             units = None
             su = s['units'] or n['units']     # a unitless source holds the number in the input's units
-            if su is not None and rng.random() < 0.5:
+            if free and su is not None and rng.random() < 0.5:
                 units = rng.choice(s['fam'])
             eff = units or n['units']
             fac, off = conversion(eff, su) if (eff and su) else (F(1), F(0))
@@ -226,7 +275,13 @@ class C07(Spec):
                 scalar = ((level is None and not n['chain']) or size == 1) and rng.random() < 0.25
                 vals = [rng.randrange(-20, 21)] if scalar else [rng.randrange(-20, 21) for _ in range(size)]
                 hist.append(dict(base, op='set', vals=vals, vshape=vshape, scalar=scalar))
-                if rng.random() < 0.75:
+                if not free:
+                    shp, nodup = list(s['shape']), True
+                    for lv in n['chain']:
+                        sel, shp = py_index(shp, lv['rflat'], lv['ix'])
+                        nodup = nodup and len(set(sel)) == len(sel)
+                    dset = (vals * size if scalar else vals) if nodup else None
+                if free and rng.random() < 0.75:
                     # the round trip is promised when no level reads an entry twice
                     shp, nodup = list(s['shape']), True
                     for lv in n['chain'] + ([level] if level else []):
@@ -235,7 +290,10 @@ class C07(Spec):
                     echo = (vals * size if scalar else vals) if nodup else None
                     hist.append(dict(base, op='get', echo=echo))
             else:
-                hist.append(dict(base, op='get', echo=None))
+                echo = None
+                if not free and n['name'] in case['dang']['tops']:
+                    echo = dset       # same variable, same units: the value just set through the top name
+                hist.append(dict(base, op='get', echo=echo))
         case['history'] = hist
         case['kind'] = '+'.join(sorted(classes)) or 'phases-only'
         return case
